@@ -139,11 +139,17 @@ def enclosing_statement(vfile, line):
 
 
 def coq_make(targets, timeout=2400):
-    with Lock("coqmake"):
+    """the project files are regenerated under a short global lock; the build itself only takes a lock per
+    property directory, so a long proof of one property does not block the checks of the others"""
+    if not targets:
+        return 0, ""
+    with Lock("coqproject"):
         rc, out = sh([os.path.join(VERIF, "tools", "mkproject.sh")])
         if rc != 0:
             return rc, out
-        return sh(["make", "-C", COQ, "-j16", "-k"] + targets, timeout=timeout)
+    dirs = sorted(set(t.split("/")[0] for t in targets))
+    with Lock("coqmake-" + "-".join(dirs)):
+        return sh(["make", "-C", COQ, "-j8", "-k"] + targets, timeout=timeout)
 
 
 def parse_make_errors(out):
